@@ -1586,6 +1586,13 @@ WITNESSES = [
 def run(R: Run):
     ns = _import()
     rng = R.rng
+    stage_t = {}
+    t_last = [time.time()]
+
+    def mark(name):
+        stage_t[name] = round(time.time() - t_last[0], 1)
+        t_last[0] = time.time()
+
     ns.dask.config.set({"array.slicing.split_large_chunks": False})
 
     # 0. corpus / witnesses of the repaired defects (always first)
@@ -1598,6 +1605,7 @@ def run(R: Run):
     spec_warp(R, ns, rng, R.pick(200, 288))
     corr_small_ops(R, ns, rng)
 
+    mark('spec+small')
     # 2. exact stream through the whole pipeline (model == real chunked, model == real in-memory)
     dts = list(DTYPES)
     for i in range(R.pick(400, 3600)):
@@ -1612,6 +1620,7 @@ def run(R: Run):
         case = gen_case(rng, rotated=(i % 6 == 5))
         corr_xr(R, ns, rng, case, dts[i % len(dts)])
 
+    mark('exact-stream')
     # 2b. placements where a destination pixel centre maps exactly onto the source's x=0 / y=0 line
     # (half-pixel shifted grids): GDAL's answer depends on the row length -> known finding
     for i in range(R.pick(12, 120)):
@@ -1625,15 +1634,24 @@ def run(R: Run):
         data = (np.arange(case["sh"] * sw).reshape(case["sh"], sw) % 7 + 1).astype(dtype)
         oracle_pair(R, ns, case, dtype, data, None, None, "sync", 0, tag="edge0")
 
+    mark('edge0')
     # 3. leading time axis, cross CRS, other resampling (oracle only)
     extra_axes(R, ns, rng, R.pick(120, 1200))
+    mark('extra_axes')
     joint_compute(R, ns, rng, R.pick(70, 600), dts)
+    mark('joint_compute')
     histories(R, ns, rng, R.pick(14, 120), dts)
+    mark('histories')
     cross_crs(R, ns, rng, R.pick(120, 1500))
+    mark('cross_crs')
     zoom_stream(R, ns, rng, R.pick(90, 900))
+    mark('zoom_stream')
     identity_corner(R, ns, rng, R.pick(100, 1200), dts)
+    mark('identity_corner')
     crs_churn(R, ns, rng, R.pick(150, 900))
+    mark('crs_churn')
 
+    R.extra["stage_seconds"] = stage_t
     R.searchers.append(searcher)
     R.assumptions.append("rasterio/GDAL nearest-neighbour warp between grids of one CRS follows Model.C13.gdalNearest "
                          "(half-open extent, floor of the mapped centre, INIT_DEST = nodata or 0, src nodata skipped, "
